@@ -93,6 +93,89 @@ type collector struct {
 	r    *core.Report
 	open map[string]string
 	docs map[string]string
+	devs map[string]*devAgg // signature -> count and the smallest example (deterministic evidence and replay files)
+}
+
+// cand is one deviating case; rank orders candidates so that the recorded example does not depend on scheduling.
+type cand struct {
+	rank string
+	desc string
+	c    Case
+	mk   func() (string, Case) // lazily builds desc and c (re-runs the case with a trace)
+}
+
+type devAgg struct {
+	n    int64
+	best *cand
+}
+
+type devLocal map[string]*devAgg
+
+func (d devLocal) note(sig string, rank func() string, mk func() (string, Case)) {
+	a := d[sig]
+	if a == nil {
+		a = &devAgg{}
+		d[sig] = a
+	}
+	a.n++
+	// cheap pre-filter: only the first deviation of a signature in this job and strictly smaller ones are ranked
+	if a.best == nil {
+		a.best = &cand{rank: rank(), mk: mk}
+		return
+	}
+	if rk := rank(); rk < a.best.rank {
+		a.best = &cand{rank: rk, mk: mk}
+	}
+}
+
+func (c *collector) merge(d devLocal) {
+	c.mu.Lock()
+	defer c.mu.Unlock()
+	if c.devs == nil {
+		c.devs = map[string]*devAgg{}
+	}
+	for sig, a := range d {
+		t := c.devs[sig]
+		if t == nil {
+			c.devs[sig] = a
+			continue
+		}
+		t.n += a.n
+		if a.best.rank < t.best.rank {
+			t.best = a.best
+		}
+	}
+}
+
+// flush hands the aggregated deviations to the report: the smallest example first, then the remaining count.
+func (c *collector) flush() {
+	c.mu.Lock()
+	defer c.mu.Unlock()
+	sigs := make([]string, 0, len(c.devs))
+	for s := range c.devs {
+		sigs = append(sigs, s)
+	}
+	sort.Strings(sigs)
+	for _, sig := range sigs {
+		a := c.devs[sig]
+		desc, cs := a.best.mk()
+		c.r.Violate(sig, desc, cs)
+		for i := int64(1); i < a.n; i++ {
+			c.r.Violate(sig, "", nil)
+		}
+	}
+	c.devs = nil
+}
+
+func caseRank(ad *adapter, ins []InSpec, p int, script string) string {
+	items, bad := 0, 0
+	for _, in := range ins {
+		items += len(in.Items)
+		if in.term() != termDone {
+			bad++
+		}
+	}
+	return fmt.Sprintf("%02d|%02d|%d|%02d|%s|%s|%04d|%s", len(ins), items, bad, len(script), ad.name, insKey(ins), p, script)
 }
 
 func (c *collector) add(name string, s adStat) {
@@ -142,7 +225,7 @@ func signature(ad string, class string) string {
 	return ad + ":" + class
 }
 
-func (c *collector) violate(ad *adapter, ins []InSpec, p int, script string, out outcome) {
+func describe(ad *adapter, ins []InSpec, p int, script string, out outcome) (string, Case) {
 	cs := Case{Harness: "c23seq", Adapter: ad.name, Inputs: append([]InSpec(nil), ins...), Param: p, Script: script}
 	if ad.paramDesc != nil {
 		cs.ParamIs = ad.paramDesc(p)
@@ -150,7 +233,12 @@ func (c *collector) violate(ad *adapter, ins []InSpec, p int, script string, out
 	var tr []string
 	runCase(ad, ins, p, script, &tr)
 	cs.Trace = tr
-	c.r.Violate(signature(ad.name, out.class), fmt.Sprintf("%s inputs=%s %s script=%q: %s; observed %v", ad.name, insKey(ins), cs.ParamIs, script, out.desc, tr), cs)
+	return fmt.Sprintf("%s inputs=%s %s script=%q: %s; observed %v", ad.name, insKey(ins), cs.ParamIs, script, out.desc, tr), cs
+}
+
+func (c *collector) violate(ad *adapter, ins []InSpec, p int, script string, out outcome) {
+	desc, cs := describe(ad, ins, p, script, out)
+	c.r.Violate(signature(ad.name, out.class), desc, cs)
 }
 
 // RunInto performs the whole sequential enumeration and records into r (no Finish).
@@ -237,7 +325,7 @@ func RunInto(o *core.Options, r *core.Report) {
 		defer func() { perAd[jb.ad.name].Add(int64(time.Since(tj))) }()
 		ad := jb.ad
 		var st adStat
-		seen := map[string]int{}
+		devs := devLocal{}
 		cur := make([]InSpec, ad.arity)
 		cur[0] = jb.ins[jb.first]
 		var rec func(pos int)
@@ -280,11 +368,9 @@ func RunInto(o *core.Options, r *core.Report) {
 					}
 					if out.class != "" {
 						st.Deviating++
-						if seen[out.class]++; seen[out.class] <= 2 {
-							col.violate(ad, cur, p, sc, out)
-						} else {
-							r.Violate(signature(ad.name, out.class), "", nil) // counted; examples were recorded above
-						}
+						ins2, p2, sc2, out2 := append([]InSpec(nil), cur...), p, sc, out
+						devs.note(signature(ad.name, out.class), func() string { return caseRank(ad, ins2, p2, sc2) },
+							func() (string, Case) { return describe(ad, ins2, p2, sc2, out2) })
 					}
 				}
 				if wantSample[ad.name] && nt && len(key) > 14 && (p == 0 || p == 5) {
@@ -306,10 +392,12 @@ func RunInto(o *core.Options, r *core.Report) {
 		rec(1)
 		r.Eval(st.Cases)
 		col.add(ad.name, st)
+		col.merge(devs)
 	})
 
 	t1 := time.Now()
 	runHelpers(o, r, col)
+	col.flush()
 	if os.Getenv("C23SEQ_TIMING") != "" {
 		fmt.Fprintf(os.Stderr, "iterators %.1fs helpers %.1fs\n", t1.Sub(t0).Seconds(), time.Since(t1).Seconds())
 		for n, v := range perAd {
